@@ -23,7 +23,9 @@ type reuseOut struct {
 	Pan  interface{}
 }
 
-func (r reuseOut) String() string { return fmt.Sprintf("{out=%q err=%v hang=%v panic=%v}", r.Out, r.Err, r.Hung, r.Pan) }
+func (r reuseOut) String() string {
+	return fmt.Sprintf("{out=%q err=%v hang=%v panic=%v}", r.Out, r.Err, r.Hung, r.Pan)
+}
 
 // an instance kind: how to make one and how to run an operation class on it
 type reuseKind struct {
@@ -94,7 +96,10 @@ func reuseKinds() []reuseKind {
 			u := inst.(ce.Unmarshaler)
 			switch op {
 			case "unsupported":
-				return guard(func() (string, error) { v, err := u.UnmarshalFromDocument(docs["valid2"], make(chan int)); return absValue(v), err })
+				return guard(func() (string, error) {
+					v, err := u.UnmarshalFromDocument(docs["valid2"], make(chan int))
+					return absValue(v), err
+				})
 			case "io-fault":
 				rd := newScriptedReader(docs["valid"], []string{"one"})
 				rd.failAt = 9
@@ -115,7 +120,11 @@ func reuseKinds() []reuseKind {
 				rd.failAt = 9
 				return guard(func() (string, error) { rec := &Recorder{}; err := d.Decode(rd, rec); return evsString(rec.Evs), err })
 			}
-			return guard(func() (string, error) { rec := &Recorder{}; err := d.DecodeDocument(doc, rec); return evsString(rec.Evs), err })
+			return guard(func() (string, error) {
+				rec := &Recorder{}
+				err := d.DecodeDocument(doc, rec)
+				return evsString(rec.Evs), err
+			})
 		}}
 	}
 	// event-level encoders and the validator: streams of events
